@@ -176,13 +176,28 @@ def run(ctx):
                     got = r.name if isinstance(r, absint.Enum) and hasattr(r, "name") else "?"
                 except (absint.Stuck, absint.Loop) as e:
                     got = "stuck"
+                if got not in ("Ok", "Err"):
+                    # written through helpers of the crate (another expect_*, an error constructor): follow them
+                    from . import machine as _mach
+                    try:
+                        val2 = absint.Enum(vidx_, [absint.Enum(nidx, [7, 9]) if nn else absint.UNKNOWN])
+                        val2.name, val2.adt = vn, "values::Value"
+                        if nn:
+                            val2.fields[0].name, val2.fields[0].adt = nn, "values::Number"
+                        r2 = _mach.Machine(fb, max_visits=4, budget=200).run(f, [val2])
+                        got = r2.name if isinstance(r2, absint.Enum) and getattr(r2, "name", None) in ("Ok", "Err") else "stuck"
+                    except (absint.Stuck, absint.Loop):
+                        got = "stuck"
                 want = "Ok" if spec(vn, nn) else "Err"
                 rows.append((vn, nn, got))
                 ctx.inst("C08-expect-tables", "%s/%s%s" % (name, vn, ("/" + nn) if nn else ""), {"result": got})
-                if got != want:
+                if got == "stuck":
+                    ctx.undecided("C08-expect-tables", "%s/%s%s" % (name, vn, ("/" + nn) if nn else ""),
+                                  "cannot follow %s on %s%s" % (name, vn, ("(" + nn + ")") if nn else ""), where_of(f))
+                elif got != want:
                     ctx.report("C08-expect-tables", "%s/%s%s" % (name, vn, ("/" + nn) if nn else ""),
                                "%s(%s%s) is %s, expected %s" % (name, vn, ("(" + nn + ")") if nn else "", got, want), where_of(f))
-        if not any(v == "TypeMisMatch" for _, _, _, _, v in mir.aggregates(f)):
+        if not any(v == "TypeMisMatch" for _, _, _, _, v in mir.aggregates(f)) and not _err_kind_via_helpers(fb, f, vi, spec, "TypeMisMatch"):
             # (the error may be built by a helper: not evidence of anything by itself)
             ctx.undecided("C08-expect-tables", name + "/error-kind", "%s does not itself build TypeMisMatch (built elsewhere?)" % name, where_of(f))
     ctx.floor("C08-expect-tables", 9 * 10)
@@ -240,6 +255,11 @@ def run(ctx):
         for b, t in f.calls():
             if callee_matches(t, "std::ops::Index>::index", "std::ops::IndexMut>::index_mut", "std::ops::Index::index",
                               "std::ops::IndexMut::index_mut") and "values::Value" in " ".join(t.get("argtys", [])):
+                from . import bounds as _bounds
+                if _bounds.index_in_range(f, b, t):
+                    continue            # (an index a dominating test shows to be below the length cannot miss)
+                if not any("Vec<values::Value" in str(x) or "[values::Value" in str(x) for x in t.get("argtys", [])[:1]):
+                    continue            # (a container that merely holds values somewhere inside, e.g. (name, value) pairs: not vector storage)
                 ctx.report("C08-vector", "%s/index-operator" % f.name, "%s indexes a Vec<Value> with the panicking "
                            "operator" % f.name, where_of(f, t))
         for b, i, s in f.stmts():
@@ -603,6 +623,47 @@ def _factors(f, o, depth=6):
     return [o]
 
 
+def _parses_only_compiled_text(f):
+    """f takes no arguments and every character stream it makes is made from a string constant compiled into the binary."""
+    if f.arg_count != 0:
+        return False
+    chars = [t for _, t in f.calls() if callee_matches(t, "<impl str>::chars")]
+    if not chars or any(mir.str_of(f, t["args"][0]) is None for t in chars):
+        return False
+    # no other source of text: no file, no argument, no static
+    return not any(callee_matches(t, "file_char_stream", "std::fs::", "std::io::", "std::env::") for _, t in f.calls())
+
+
+def _err_kind_via_helpers(fb, f, vi, spec, kind):
+    """The Err of f on a value of another variant, with the crate's helpers followed, holds an error of the given kind."""
+    from . import machine as _mach
+    for vn, vidx_ in vi.items():
+        if vn == "Number" or spec(vn, None):
+            continue
+        val = absint.Enum(vidx_, [absint.UNKNOWN])
+        val.name, val.adt = vn, "values::Value"
+        try:
+            r = _mach.Machine(fb, max_visits=4, budget=200).run(f, [val])
+        except (absint.Stuck, absint.Loop):
+            continue
+        seen = []
+
+        def walk(v, d=0):
+            if d > 8:
+                return
+            if isinstance(v, absint.Enum):
+                if getattr(v, "name", None):
+                    seen.append(v.name)
+                for x in v.fields:
+                    walk(x, d + 1)
+            elif isinstance(v, list):
+                for x in v:
+                    walk(x, d + 1)
+        walk(r)
+        return kind in seen
+    return False
+
+
 def no_swallow(ctx, fb):
     SWALLOW = ("std::result::Result::ok", "std::result::Result::unwrap_or", "std::result::Result::unwrap_or_default",
                "std::result::Result::unwrap_or_else", "std::result::Result::is_ok", "std::result::Result::is_err",
@@ -677,6 +738,10 @@ def no_swallow(ctx, fb):
             for u in bad:
                 al = ALLOW.get(owner)
                 short = u[1].rsplit("::", 1)[-1]
+                if al is None and short in ("is_some", "is_none") and _parses_only_compiled_text(f):
+                    # the loader of the bundled derived forms, wherever a restructuring put it: a function without
+                    # parameters whose only text is a compiled-in constant drains its parser with next().is_some()/is_none()
+                    al = (short, ALLOW["parser::parser::create_syntax_binding::BINDINGS::__rust_std_internal_init_fn"][1])
                 if al and short == al[0]:
                     ctx.inst("C08-no-swallow", "%s/allowed/%s" % (owner, short), {"reason": al[1]})
                     continue
